@@ -204,6 +204,11 @@ func (m *TlvModel) GenReadFrom(buf *bytes.Buffer) error {
 						}
 						handled = true
 						err = reader.Skip(int(l))
+						{{- if (eq $.Model.Ordered true)}}
+						// An unrecognized field does not occupy a position of the ordered
+						// model: undo the loop's increment so the next field still matches.
+						progress --
+						{{- end}}
 					}
 					if err == nil && !handled {
 						{{- if (eq $.Model.Ordered true)}}
